@@ -1305,7 +1305,7 @@ def run_e2e09_acq(spec):
         if key == "noise_variance":
             params[key] = math.exp(rng.uniform(math.log(1e-3), math.log(0.3)))
             if spec.get("near_data"):
-                params[key] = 1e-9 * math.exp(rng.uniform(0.1, 2))   # an (almost) noise-free objective
+                params[key] = 1e-8 * math.exp(rng.uniform(0, 1.5))   # an (almost) noise-free objective
         elif key.startswith("kernel_inv_bw"):
             params[key] = math.exp(rng.uniform(-1, 1.2))
         elif key == "kernel_covariance_scale":
@@ -1370,7 +1370,9 @@ def run_e2e09_acq(spec):
             r, err = richardson(f, x, i, h_fd)
             tol = fd_tol(grad[i], r, err, abs(alone))
             if spec.get("near_data"):
-                tol = 50 * err + 1e-4 * max(abs(grad[i]), abs(r)) + 1e-13 * max(1.0, abs(alone)) / h_fd
+                # (the kernel matrix is ill-conditioned here: value and gradient are computed along different routes and agree
+                # to about condition number x unit round-off only)
+                tol = 50 * err + 1.5e-3 * max(abs(grad[i]), abs(r)) + 1e-13 * max(1.0, abs(alone)) / h_fd
             worst = max(worst, abs(grad[i] - r) / tol)
             if not abs(grad[i] - r) <= tol:
                 mon.append(F("c09:acq-gradient-not-derivative",
